@@ -55,6 +55,8 @@ type monC11 struct {
 	Answered bool   // somebody has provided a secret since the latest start
 	Dirty    bool   // a restart crossed messages of the run it replaces: the protocol does not promise that run a verdict
 	Flight   [2]int // deliveries to this side until the latest start message addressed to it has been received
+	Open     bool    // a run has been started and has not yet ended (terminal event) on both sides
+	Term     [2]bool // this side has seen a terminal event since the latest start
 }
 
 // id: "v<2|3>/<pair>/<q|noq>/init<A|B>/S<starts>/T<traffic>"
@@ -133,7 +135,7 @@ func verifC11Sys(id string, seed int64) *verifSys {
 		}
 		// a further run is started back-to-back: only once the previous one has ended on both sides
 		// (a restart that crosses the peer's answer in flight aborts both runs by design of the protocol)
-		if m.Starts > 0 && (m.Started == 0 || (len(w.Q[0])+len(w.Q[1]) == 0 && terminal(m.LastEv[0]) && terminal(m.LastEv[1]) && !m.Asked[0] && !m.Asked[1])) {
+		if m.Starts > 0 && (m.Started == 0 || (len(w.Q[0])+len(w.Q[1]) == 0 && !m.Open && terminal(m.LastEv[0]) && terminal(m.LastEv[1]) && !m.Asked[0] && !m.Asked[1])) {
 			evs = append(evs, verifEv{K: "smpstart", I: m.Init})
 		} else if m.Starts > 0 && m.Mode == 'r' {
 			// the user enters the secret again while the run is still pending
@@ -176,7 +178,7 @@ func verifC11Sys(id string, seed int64) *verifSys {
 			r = p.Send([]byte(fmt.Sprintf("chat %d/%d", e.I, m.TextSent[e.I])))
 		case "smpstart":
 			m.Starts--
-			if m.Started > 0 && (m.LastEv[0] != int(SMPEventSuccess) && m.LastEv[0] != int(SMPEventFailure) && m.LastEv[0] != int(SMPEventAbort) || len(w.Q[0])+len(w.Q[1]) > 0) {
+			if m.Started > 0 && (m.Open || len(w.Q[0])+len(w.Q[1]) > 0) {
 				m.Restart = true
 				// the replaced run is only guaranteed to disappear without trace if nobody has answered it yet and no
 				// start message is on its way to the side that starts now
@@ -187,6 +189,8 @@ func verifC11Sys(id string, seed int64) *verifSys {
 			m.Started++
 			m.Cur = e.I
 			m.Answered = false
+			m.Open = true
+			m.Term = [2]bool{}
 			m.Asked[e.I] = false // whoever starts a run of their own no longer owes an answer
 			r = p.StartSMP(question, secret(e.I))
 			if r.Err != "" {
@@ -202,7 +206,7 @@ func verifC11Sys(id string, seed int64) *verifSys {
 				m.Dirty = true // answers a question that a restart under way has withdrawn
 			}
 			r = p.AnswerSMP(secret(e.I))
-			if r.Err != "" && !stale {
+			if r.Err != "" && !stale && !m.Dirty {
 				bad("answer-error", "ProvideAuthenticationSecret failed: %s", r.Err)
 			}
 		case "deliver":
@@ -226,6 +230,12 @@ func verifC11Sys(id string, seed int64) *verifSys {
 				continue
 			}
 			m.LastEv[e.I] = ev.Code
+			if c := SMPEvent(ev.Code); c == SMPEventSuccess || c == SMPEventFailure || c == SMPEventAbort {
+				m.Term[e.I] = true
+				if m.Term[0] && m.Term[1] {
+					m.Open = false
+				}
+			}
 			switch SMPEvent(ev.Code) {
 			case SMPEventAskForSecret, SMPEventAskForAnswer:
 				m.Asked[e.I] = true
